@@ -201,26 +201,37 @@ def kernels():
         "Proof. intros. unfold {T}. unfold nfrac. %s. list_eq_ring. Qed." % (K, K, UNF), imports=_imports()))
 
     # rotation_from_up_and_look: Gram-Schmidt with two nested square roots; equality by unfolding.
-    # Since the repair of the extreme-magnitude defect (fixes/C11-up-look-extreme-magnitudes.diff) the code first
-    # rescales each vector by a power of two (np.frexp / np.ldexp); the trace then computes on u * 2^-e, and the tie goes
-    # through the scale invariance lemma of P_rotation.v.  Both shapes of the source are accepted; anything else breaks.
-    import inspect
-    rescaled = "ldexp" in inspect.getsource(rotation_from_up_and_look)
-    UL_HEAD = ("Lemma {T}_ok : forall {vars} : R, {T}_path ROps {vars} ->\n"
-               "  rmap (m3list (F:=R)) (rotation_from_up_and_look ROps (V3 u0 u1 u2) (V3 l0 l1 l2)) = Ok ({T} ROps {vars}).\n"
-               "Proof. intros {vars} Hpath. unfold {T}_path, nfrac in Hpath; rops. path_facts Hpath.\n")
-    UL_BODY = ("  unfold rotation_from_up_and_look. cbv [vnorm vnorm2 vdot vdivs vsub vscale vcross m3rows n0 vx vy vz]; rops.\n"
-               "  repeat match goal with |- context [Reqb ?a ?b] => destruct (Reqb_spec a b) as [?E|?E]; [exfalso; first [contradiction | lra]|] end.\n"
-               "  cbn [rmap]; f_equal; unfold {T}, nfrac; %s; list_eq ltac:(first [reflexivity | ring]). Qed." % UNF)
-    # scenario: largest components 3 = 0.75 * 2^2 for both vectors, so both are rescaled by 2^-2
-    UL_SCALE = ("  rewrite <- (up_look_scale_invariant (1 / 4) (1 / 4) (V3 u0 u1 u2) (V3 l0 l1 l2)) by lra.\n"
-                "  replace (vscale ROps (1 / 4) (V3 u0 u1 u2)) with (V3 (u0 * (1 / 4)) (u1 * (1 / 4)) (u2 * (1 / 4)))\n"
-                "    by (unfold vscale; cbn [vx vy vz]; rops; apply V3_ext; ring).\n"
-                "  replace (vscale ROps (1 / 4) (V3 l0 l1 l2)) with (V3 (l0 * (1 / 4)) (l1 * (1 / 4)) (l2 * (1 / 4)))\n"
-                "    by (unfold vscale; cbn [vx vy vz]; rops; apply V3_ext; ring).\n")
+    # The code rescales each vector by a power of two (np.frexp / np.ldexp) before any norm is taken (repair 8a2fbc5); the
+    # trace then computes on u * 2^-e.  The proof script does not look at the source: it first tries the direct
+    # unfolding (no rescaling), then the route through the scale-invariance lemma of P_rotation.v with the power of two
+    # that belongs to the scenario's values; square roots with ring-equal arguments are unified (TraceTac.ring_sqrt), so
+    # norm / sqrt(dot) / a length computed once or twice all close.  Anything that is not the model breaks.
+    import math
+    uv, lv = [0.5, 3.0, 1.0], [3.0, -1.0, 0.5]
+
+    def pow2(v):  # the factor 2^-e of np.frexp(max|v|), as Coq text
+        f = Fr(2) ** (-math.frexp(max(abs(x) for x in v))[1])
+        return "(%d / %d)" % (f.numerator, f.denominator)
+
+    cu, cl = pow2(uv), pow2(lv)
+    UL_BODY = ("(unfold rotation_from_up_and_look; cbv [vnorm vnorm2 vdot vdivs vsub vscale vcross m3rows n0 vx vy vz]; rops;\n"
+               "   repeat match goal with |- context [Reqb ?a ?b] => destruct (Reqb_spec a b) as [?E|?E];\n"
+               "     [exfalso; first [contradiction | lra | sqrt_contra]|] end;\n"
+               "   cbn [rmap]; f_equal; unfold {T}, nfrac; %s; list_eq ltac:(ring_sqrt))" % UNF)
+    UL_SCALE = ("(rewrite <- (up_look_scale_invariant %s %s (V3 u0 u1 u2) (V3 l0 l1 l2)) by lra;\n"
+                "   replace (vscale ROps %s (V3 u0 u1 u2)) with (V3 (u0 * %s) (u1 * %s) (u2 * %s))\n"
+                "     by (unfold vscale; cbn [vx vy vz]; rops; apply V3_ext; ring);\n"
+                "   replace (vscale ROps %s (V3 l0 l1 l2)) with (V3 (l0 * %s) (l1 * %s) (l2 * %s))\n"
+                "     by (unfold vscale; cbn [vx vy vz]; rops; apply V3_ext; ring))" % (cu, cl, cu, cu, cu, cu, cl, cl, cl, cl))
     ks.append(Kernel(
-        "up_look", {"u": [0.5, 3.0, 1.0], "l": [3.0, -1.0, 0.5]}, lambda u, l: rotation_from_up_and_look(u, l),
-        UL_HEAD + (UL_SCALE if rescaled else "") + UL_BODY,
+        "up_look", {"u": uv, "l": lv}, lambda u, l: rotation_from_up_and_look(u, l),
+        "(* a path fact  sqrt a <> 0  against a case hypothesis  sqrt b = 0  with ring-equal a, b *)\n"
+        "Ltac sqrt_contra := match goal with Hn : sqrt ?a <> 0, He : sqrt ?b = 0 |- _ =>\n"
+        "  apply Hn; rewrite <- He; f_equal; ring end.\n"
+        "Lemma {T}_ok : forall {vars} : R, {T}_path ROps {vars} ->\n"
+        "  rmap (m3list (F:=R)) (rotation_from_up_and_look ROps (V3 u0 u1 u2) (V3 l0 l1 l2)) = Ok ({T} ROps {vars}).\n"
+        "Proof. intros {vars} Hpath. unfold {T}_path, nfrac in Hpath; rops. path_facts Hpath.\n"
+        "  first [ timeout 60 solve [ " + UL_BODY + " ]\n        | timeout 60 solve [ " + UL_SCALE + ";\n  " + UL_BODY + " ] ]. Qed.",
         imports=_imports() + [("PW.proofs", "P_vec"), ("PW.proofs", "P_rotation")], perturb=1e-3))
     return ks
 
